@@ -40,6 +40,7 @@ type Op struct {
 	T *tailVariant `json:"t,omitempty"` // crash: torn tail variant
 	// RLIMIT_FSIZE slack for an injected append failure: how many bytes of the batch still fit
 	S int `json:"s,omitempty"`
+	A bool `json:"a,omitempty"` // crash: an undurable watermark rename is undone as well
 }
 
 func (o Op) String() string {
@@ -442,8 +443,12 @@ func (r *runner) checkDir(dbPath, label string, at any, wantOK bool, want []stri
 
 // checkImage materialises base idx of (cop, ft) with the zombies of mask resurrected and the
 // given torn tail, and checks it.
-func (r *runner) checkImage(cop, ft string, idx int, b base, mask uint64, tv tailVariant, allowed [][]string, inflight []call) {
+func (r *runner) checkImage(cop, ft string, idx int, b base, mask uint64, alt bool, tv tailVariant, allowed [][]string, inflight []call) {
 	ms := maskStr(mask, len(b.Disk.Zombies))
+	if alt {
+		ms = "~" + ms
+		r.res.Hit("image:watermark-rename-undone")
+	}
 	ans := r.ask(fmt.Sprintf("img %s %s %d %s", cop, fault(ft), idx, ms))
 	parts := strings.SplitN(ans, " => ", 2)
 	if len(parts) != 2 {
@@ -600,7 +605,10 @@ func (r *runner) imagesOf(cop, ft string, bs []base, every bool) {
 				}
 			}
 			for _, tv := range tvs {
-				r.checkImage(cop, ft, idx, b, m, tv, allowed, inflight)
+				r.checkImage(cop, ft, idx, b, m, false, tv, allowed, inflight)
+				if b.Disk.Alt != "-" && b.Disk.Alt != "" {
+					r.checkImage(cop, ft, idx, b, m, true, tv, allowed, inflight)
+				}
 			}
 		}
 	}
@@ -612,7 +620,7 @@ func baseOf(point string, o Op, nb int, nthRemoved, removedTotal int) int {
 	if o.K == "close" {
 		nb -= 2
 	}
-	cleanup := nb >= 11 && o.F != "wm"
+	cleanup := nb >= 12 && o.F != "wm"
 	switch point {
 	case "walstore:flush:after-append-sync":
 		if o.F == "append" {
@@ -620,11 +628,11 @@ func baseOf(point string, o Op, nb int, nthRemoved, removedTotal int) int {
 		}
 		return 4
 	case "walstore:watermark:tmp-synced":
-		if cleanup {
+		if cleanup || o.F == "wmsync" {
 			return 5
 		}
 	case "walstore:watermark:renamed":
-		if cleanup {
+		if cleanup || o.F == "wmsync" {
 			return 7
 		}
 	case "walstore:cleanup:watermark-written", "walstore:cleanup:rotated":
@@ -632,8 +640,8 @@ func baseOf(point string, o Op, nb int, nthRemoved, removedTotal int) int {
 			return 8
 		}
 	case "walstore:cleanup:removed-one":
-		if cleanup && nthRemoved == removedTotal {
-			return 10
+		if cleanup && nthRemoved == removedTotal && !strings.HasPrefix(o.F, "unlink:") {
+			return 11
 		}
 	}
 	return -1
@@ -834,6 +842,134 @@ func (r *runner) compareState(step string) {
 
 var rlimitMu sync.Mutex
 
+// lowestFreeFd is the number the next opened file would get.
+func lowestFreeFd() uint64 {
+	used := map[uint64]bool{}
+	if d, err := os.Open("/proc/self/fd"); err == nil {
+		self := uint64(d.Fd())
+		names, _ := d.Readdirnames(-1)
+		d.Close()
+		for _, name := range names {
+			if n, err := strconv.ParseUint(name, 10, 64); err == nil && n != self {
+				used[n] = true
+			}
+		}
+	}
+	for n := uint64(0); ; n++ {
+		if !used[n] {
+			return n
+		}
+	}
+}
+
+// injector makes one step inside a running Flush / Close fail, at the crash point (utils/verifhook)
+// just before it:
+//   wmsync   — at "watermark:renamed": RLIMIT_NOFILE is lowered so that syncDir cannot open the directory;
+//   rotate   — at "cleanup:watermark-written": RLIMIT_FSIZE = size of the log being written, so that
+//              writing the EOF trailer in writer.Close fails (the tail repair, a truncation, succeeds);
+//   unlink:k — before the k-th unlink of cleanupObsoleteWALs the log to be removed is replaced by a
+//              non-empty directory (os.Remove fails with ENOTEMPTY); it is put back afterwards from
+//              its hard link.
+type injector struct {
+	r        *runner
+	f        string
+	k        int      // unlink: which removal fails
+	cand     []uint64 // unlink: the logs the cleanup will remove, ascending (from the model)
+	removed  int
+	nofile   *syscall.Rlimit
+	fsize    *syscall.Rlimit
+	swapped  string
+	injected bool
+}
+
+func (r *runner) newInjector(o Op) *injector {
+	in := &injector{r: r, f: o.F, k: -1}
+	if strings.HasPrefix(o.F, "unlink:") {
+		in.k, _ = strconv.Atoi(strings.TrimPrefix(o.F, "unlink:"))
+		in.f = "unlink"
+		// without a failure the model unlinks all candidates: they are the zombies of its last base
+		if bs := r.basesOf(o.K, ""); len(bs) > 0 {
+			last := bs[len(bs)-1]
+			if o.K == "close" && len(bs) > 2 {
+				last = bs[len(bs)-3]
+			}
+			for _, z := range last.Disk.Zombies {
+				in.cand = append(in.cand, z.Num)
+			}
+		}
+	}
+	return in
+}
+
+func (in *injector) at(point string) {
+	wd := walDirOf(in.r.real.db)
+	switch in.f {
+	case "wmsync":
+		if point == "walstore:watermark:renamed" && in.nofile == nil {
+			var old syscall.Rlimit
+			if syscall.Getrlimit(syscall.RLIMIT_NOFILE, &old) == nil {
+				in.nofile = &old
+				_ = syscall.Setrlimit(syscall.RLIMIT_NOFILE, &syscall.Rlimit{Cur: lowestFreeFd(), Max: old.Max})
+				in.injected = true
+			}
+		}
+	case "rotate":
+		if point == "walstore:cleanup:watermark-written" && in.fsize == nil {
+			d, _ := in.r.real.observe(in.r.real.db, false)
+			if n := len(d.Files); n > 0 {
+				if st, err := os.Stat(filepath.Join(wd, logName(d.Files[n-1].Num))); err == nil {
+					var old syscall.Rlimit
+					if syscall.Getrlimit(syscall.RLIMIT_FSIZE, &old) == nil {
+						in.fsize = &old
+						_ = syscall.Setrlimit(syscall.RLIMIT_FSIZE, &syscall.Rlimit{Cur: uint64(st.Size()), Max: old.Max})
+						in.injected = true
+					}
+				}
+			}
+		}
+		if point == "walstore:cleanup:rotated" {
+			in.restoreFsize()
+		}
+	case "unlink":
+		idx := -1
+		if point == "walstore:cleanup:rotated" {
+			idx = 0
+		} else if point == "walstore:cleanup:removed-one" {
+			in.removed++
+			idx = in.removed
+		}
+		if idx >= 0 && idx == in.k && in.k < len(in.cand) && in.swapped == "" {
+			p := filepath.Join(wd, logName(in.cand[in.k]))
+			if os.Remove(p) == nil && os.Mkdir(p, 0o755) == nil {
+				_ = os.WriteFile(filepath.Join(p, "x"), []byte("x"), 0o644)
+				in.swapped = p
+				in.injected = true
+			}
+		}
+	}
+}
+
+func (in *injector) restoreFsize() {
+	if in.fsize != nil {
+		_ = syscall.Setrlimit(syscall.RLIMIT_FSIZE, in.fsize)
+		in.fsize = nil
+	}
+}
+
+// restore undoes what is left of the injection after the operation returned.
+func (in *injector) restore() {
+	in.restoreFsize()
+	if in.nofile != nil {
+		_ = syscall.Setrlimit(syscall.RLIMIT_NOFILE, in.nofile)
+		in.nofile = nil
+	}
+	if in.swapped != "" {
+		_ = os.RemoveAll(in.swapped)
+		_ = os.Link(filepath.Join(in.r.real.db+"-links", filepath.Base(in.swapped)), in.swapped)
+		in.swapped = ""
+	}
+}
+
 // withFault runs f with the requested failure injected into the real environment.
 func (r *runner) withFault(o Op, f func() error) error {
 	wd := walDirOf(r.real.db)
@@ -855,6 +991,22 @@ func (r *runner) withFault(o Op, f func() error) error {
 			// the watermark write was not attempted: the stale temporary file is still there
 			_ = os.WriteFile(tmp, stale, 0o644)
 		}
+		return err
+	case "create":
+		// manager.Create cannot open the new log: only when no writer is open (otherwise the flush
+		// needs no new file descriptor before the watermark write, and the model ignores the fault)
+		if r.ask("writer") != "-" {
+			return f()
+		}
+		rlimitMu.Lock()
+		defer rlimitMu.Unlock()
+		var old syscall.Rlimit
+		if syscall.Getrlimit(syscall.RLIMIT_NOFILE, &old) != nil {
+			return f()
+		}
+		_ = syscall.Setrlimit(syscall.RLIMIT_NOFILE, &syscall.Rlimit{Cur: lowestFreeFd(), Max: old.Max})
+		err := f()
+		_ = syscall.Setrlimit(syscall.RLIMIT_NOFILE, &old)
 		return err
 	case "append":
 		if !r.serial {
@@ -951,10 +1103,19 @@ func (r *runner) exec(o Op) {
 		preAcked := spec(r.acked)
 		preBoth := spec(append(append([]call(nil), r.acked...), r.calls...))
 		preDisk, _ := r.real.observe(r.real.db, false)
+		preKnown := r.real.knownBatches()
 		watch := every || r.rng.Intn(6) == 0
 		r.hooked = nil
-		if watch {
-			hookSink = r.record
+		inj := r.newInjector(o)
+		hookSink = func(p string) {
+			if p == "walstore:flush:after-append-sync" {
+				// learn (and hard-link) the log just written: the same call may unlink it
+				_, _ = r.real.observe(r.real.db, true)
+			}
+			if watch {
+				r.record(p)
+			}
+			inj.at(p)
 		}
 		err := r.withFault(o, func() error {
 			if o.K == "flush" {
@@ -963,6 +1124,10 @@ func (r *runner) exec(o Op) {
 			return guard(r.real.st.Close)
 		})
 		hookSink = nil
+		inj.restore()
+		if inj.injected {
+			r.res.Hit("inject:" + inj.f)
+		}
 		postDisk, oerr := r.real.observe(r.real.db, true)
 		if oerr != nil {
 			r.res.Note("observe: %v", oerr)
@@ -975,7 +1140,7 @@ func (r *runner) exec(o Op) {
 			switch {
 			case lerr == nil && eq(live, preAcked) && eq(live, preBoth):
 				// the batch changes nothing visible: a batch more in the logs means it is committed
-				committed = totalBatches(postDisk) > totalBatches(preDisk)
+				committed = r.real.knownBatches() > preKnown
 				if committed {
 					r.res.Hit(o.K + ":error-after-commit")
 				}
@@ -985,7 +1150,7 @@ func (r *runner) exec(o Op) {
 				committed = true
 				r.res.Hit(o.K + ":error-after-commit")
 			default:
-				committed = totalBatches(postDisk) > totalBatches(preDisk)
+				committed = r.real.knownBatches() > preKnown
 				r.viol(lib.Violation{Sig: "failed-flush-leaves-partial-state-in-memory",
 					What:   fmt.Sprintf("%s returned %v and LoadAllEntries shows neither the state before nor the state after the batch", o.K, err),
 					Replay: r.replay(map[string]any{"live": live})})
@@ -1101,6 +1266,9 @@ func (r *runner) crash(o Op) {
 		mask &= uint64(1)<<uint(nz) - 1
 	}
 	ms := maskStr(mask, nz)
+	if o.A {
+		ms = "~" + ms
+	}
 	ans := r.ask(fmt.Sprintf("img %s %s %d %s", cop, fault(o.F), idx, ms))
 	parts := strings.SplitN(ans, " => ", 2)
 	img, err := parseDisk(parts[0])
@@ -1126,6 +1294,9 @@ func (r *runner) crash(o Op) {
 		// unknown bytes (batch of a failed flush): crash at the first durable state instead
 		idx, b = 0, bs[0]
 		ms = maskStr(mask, len(b.Disk.Zombies))
+		if o.A {
+			ms = "~" + ms
+		}
 		ans = r.ask(fmt.Sprintf("img %s %s %d %s", cop, fault(o.F), idx, ms))
 		parts = strings.SplitN(ans, " => ", 2)
 		img, _ = parseDisk(parts[0])
@@ -1306,6 +1477,12 @@ func main() {
 		n++
 	}
 	res.Note("shard %d/%d: %d histories in %.1fs", *shardFlag, *shardsFlag, n, time.Since(t0).Seconds())
+	if os.Getenv("VERIF_C14_ONLY") == "" || os.Getenv("VERIF_C14_ONLY") == "codec" {
+		t1 := time.Now()
+		_ = os.MkdirAll(runRoot, 0o755)
+		runCodec(f, res, *shardFlag, *shardsFlag, runRoot)
+		res.Note("shard %d/%d: byte-level codec / framing section in %.1fs", *shardFlag, *shardsFlag, time.Since(t1).Seconds())
+	}
 	_ = os.RemoveAll(runRoot)
 	finish(f, res)
 }
@@ -1394,12 +1571,25 @@ func replayFile(f lib.Flags, res *lib.Result) {
 		return
 	}
 	var doc struct {
+		Sig    string `json:"sig"`
 		Replay struct {
-			Ops []Op `json:"ops"`
+			Ops     []Op   `json:"ops"`
+			Codec   string `json:"codec"`
+			File    string `json:"file"`
+			Payload string `json:"payload"`
 		} `json:"replay"`
 	}
 	if err := json.Unmarshal(b, &doc); err != nil {
 		res.Note("replay: %v", err)
+		return
+	}
+	if doc.Replay.Codec != "" {
+		// a byte-level case: the whole section is cheap enough to be re-run
+		root := filepath.Join(scratchRoot, fmt.Sprintf("run%d", os.Getpid()))
+		_ = os.MkdirAll(root, 0o755)
+		ff := f
+		ff.Tier = "thorough"
+		runCodec(ff, res, 0, 1, root)
 		return
 	}
 	serial := false
